@@ -665,7 +665,7 @@ func writeExpression(ctx *exprContext, sb *strings.Builder, x parser.Expr) error
 		default:
 			fmt.Fprintf(sb, "/* unhandled %s unary op */ ", x.Op)
 		}
-		if err := writeExpressionMaybeParen(ctx, sb, x.X); err != nil {
+		if err := writeExpressionOperand(ctx, sb, x.X); err != nil {
 			return err
 		}
 	case *parser.BinaryExpr:
@@ -759,7 +759,7 @@ func writeExpression(ctx *exprContext, sb *strings.Builder, x parser.Expr) error
 		}
 		sb.WriteString(")")
 	case *parser.IndexExpr:
-		if err := writeExpressionMaybeParen(ctx, sb, x.X); err != nil {
+		if err := writeExpressionOperand(ctx, sb, x.X); err != nil {
 			return err
 		}
 		sb.WriteString("[")
@@ -817,6 +817,30 @@ func writeExpressionMaybeParen(ctx *exprContext, sb *strings.Builder, x parser.E
 	}
 	sb.WriteString(")")
 	return nil
+}
+
+// writeExpressionOperand writes the operand of a unary sign
+// or the base of an index expression.
+// A signed operand needs parentheses there even though it is otherwise atomic:
+// "--x" would start an SQL comment and "-a[1]" would index before negating.
+func writeExpressionOperand(ctx *exprContext, sb *strings.Builder, x parser.Expr) error {
+	y := x
+	for {
+		p, ok := y.(*parser.ParenExpr)
+		if !ok {
+			break
+		}
+		y = p.X
+	}
+	if _, ok := y.(*parser.UnaryExpr); ok {
+		sb.WriteString("(")
+		if err := writeExpression(ctx, sb, y); err != nil {
+			return err
+		}
+		sb.WriteString(")")
+		return nil
+	}
+	return writeExpressionMaybeParen(ctx, sb, x)
 }
 
 type functionRewrite struct {
